@@ -69,6 +69,9 @@ func (c *Conn) handleAppend(tag string, dec *imapwire.Decoder) error {
 	}
 
 	if lit.Size() > appendLimit {
+		if nonSync {
+			io.Copy(io.Discard, lit) // the client sends it anyway
+		}
 		return &imap.Error{
 			Type: imap.StatusResponseTypeNo,
 			Code: imap.ResponseCodeTooBig,
@@ -76,6 +79,9 @@ func (c *Conn) handleAppend(tag string, dec *imapwire.Decoder) error {
 		}
 	}
 	if err := c.acceptLiteral(lit.Size(), nonSync); err != nil {
+		if nonSync {
+			io.Copy(io.Discard, lit) // the client sends it anyway
+		}
 		return err
 	}
 
